@@ -29,10 +29,11 @@ Lemma recv_body_sound {T} lay (read : list N -> nat -> T) valid q h b files :
     /\ VhostUserMsgHeader_is_valid RF h = true /\ valid b = true.
 Proof.
   unfold recv_body. destruct (recv_all _ _ _ _ _ _) as [bytes fl cl q'|] eqn:E; [|discriminate].
-  destruct (negb (Nat.eqb _ _)) eqn:El; [discriminate|].
-  destruct (negb (VhostUserMsgHeader_is_valid RF _) || negb (valid _)) eqn:Ev; [discriminate|].
+  destruct (GenFeRecv.frb_d1 _ _ _ _) eqn:El; [discriminate|].
+  destruct (GenFeRecv.frb_d2 _ _ _ _) eqn:Ev; [discriminate|].
   intros H. injection H as <- <- <-.
-  apply negb_false_iff, Nat.eqb_eq in El. apply orb_false_iff in Ev as [Ev1 Ev2].
+  unfold GenFeRecv.frb_d1 in El. unfold GenFeRecv.frb_d2 in Ev.
+  apply negb_false_iff, N.eqb_eq, Nat2N.inj in El. apply orb_false_iff in Ev as [Ev1 Ev2].
   apply negb_false_iff in Ev1, Ev2. exists bytes, cl, q'. repeat split; auto.
 Qed.
 
@@ -47,8 +48,9 @@ Lemma recv_reply_sound {T} req lay (read : list N -> nat -> T) valid q b :
        /\ VhostUserMsgHeader_is_reply RF h = true
        /\ VhostUserMsgHeader_request h = VhostUserMsgHeader_request req.
 Proof.
-  unfold recv_reply. destruct (_ || _); [discriminate|].
+  unfold recv_reply. destruct (GenFeRecv.frr_d1 _ _ _); [discriminate|].
   destruct (recv_body lay read valid q) as [[[h b'] files]|] eqn:E; [|discriminate].
+  unfold GenFeRecv.frr_d2.
   destruct (negb (VhostUserMsgHeader_is_reply_for RF h req) || o_is_some files || negb (valid b')) eqn:Ec; [discriminate|].
   intros H. injection H as <-.
   apply orb_false_iff in Ec as [Ec Ec3]. apply orb_false_iff in Ec as [Ec1 Ec2].
@@ -72,7 +74,8 @@ Lemma wait_for_ack_sound s req q :
        /\ VhostUserMsgHeader_request h = VhostUserMsgHeader_request req
        /\ VhostUserU64_value (VhostUserU64_read bytes 12) = 0.
 Proof.
-  intros Ha Hn. unfold wait_for_ack. rewrite Ha, Hn. cbn [negb orb].
+  intros Ha Hn. unfold wait_for_ack, GenFeRecv.fra_d1, GenFeRecv.fra_d2, GenFeRecv.fra_d3.
+  unfold hasf in Ha. apply negb_true_iff in Ha. rewrite Ha, Hn. cbn [negb orb].
   destruct (recv_body _ _ _ q) as [[[h b] files]|] eqn:E; [|discriminate].
   destruct (negb (VhostUserMsgHeader_is_reply_for RF h req) || o_is_some files || negb (VhostUserU64_is_valid b)) eqn:Ec; [discriminate|].
   destruct (negb (VhostUserU64_value b =? 0)) eqn:Ez; [discriminate|]. intros _.
